@@ -1002,6 +1002,63 @@ func TestPropParsers(t *testing.T) {
 	})
 }
 
+// TestSlotSweep: small fixed bundles (b1 / b2, narrow and 8-byte heads, with an unknown section),
+// EVERY length / count / offset field x every hostile value, and every truncation length, through
+// bundle.Read: totality must not depend on which fields the random generator happens to pick.
+func TestSlotSweep(t *testing.T) {
+	mk := func(ver string, wide, raw bool) refbundle.Asm {
+		a := refbundle.Asm{Version: ver, Wide: wide}
+		if ver == "b1" {
+			a.HeaderURL = "https://a.example/"
+		}
+		a.Resps = []refbundle.AsmResp{
+			{Fields: []refbundle.HeaderField{{Name: ":status", Value: "200"}, {Name: "content-type", Value: "text/plain"}}, BodyLen: 5, BodyTag: 1},
+			{Fields: []refbundle.HeaderField{{Name: "x-a", Value: "1"}, {Name: ":status", Value: "404"}}, BodyLen: 30, BodyTag: 2},
+		}
+		a.Index = []refbundle.AsmIndex{{URL: "https://a.example/a", Resps: []int{0}}, {URL: "https://a.example/b?x", Resps: []int{1}}}
+		a.Sections = []refbundle.AsmSection{{Name: "index", Kind: "index", Decoy: -1}}
+		if ver == "b2" {
+			a.Sections = append(a.Sections, refbundle.AsmSection{Name: "primary", Kind: "primary", Text: "https://a.example/a", Decoy: -1})
+		} else {
+			a.Sections = append(a.Sections, refbundle.AsmSection{Name: "manifest", Kind: "manifest", Text: "https://a.example/m", Decoy: -1})
+		}
+		if raw {
+			a.Sections = append([]refbundle.AsmSection{{Name: "future", Kind: "raw", RawLen: 7, Decoy: -1}}, a.Sections...)
+		}
+		a.Sections = append(a.Sections, refbundle.AsmSection{Name: "signatures", Kind: "signatures", Decoy: -1}, refbundle.AsmSection{Name: "responses", Kind: "responses", Decoy: -1})
+		return a
+	}
+	asms := []refbundle.Asm{mk("b2", true, false), mk("b1", true, true)}
+	if vh.Thorough() {
+		asms = append(asms, mk("b2", false, true), mk("b1", false, false))
+	}
+	n := 0
+	for _, a := range asms {
+		file, slots := refbundle.Assemble(&a)
+		for _, sl := range slots {
+			for _, v := range hostile {
+				n++
+				if !prop.One(t, Case{Target: "bundle.Read", Input: refbundle.Patch(file, sl, v), Origin: "slot-sweep"}) {
+					return
+				}
+			}
+			for _, d := range []uint64{1, ^uint64(0)} { // +1 / -1
+				n++
+				if !prop.One(t, Case{Target: "bundle.Read", Input: refbundle.Patch(file, sl, sl.Value+d), Origin: "slot-sweep"}) {
+					return
+				}
+			}
+		}
+		for k := 0; k <= len(file); k++ {
+			n++
+			if !prop.One(t, Case{Target: "bundle.Read", Input: file[:k], Origin: "slot-sweep"}) {
+				return
+			}
+		}
+	}
+	vh.Exhaustive("parsers", fmt.Sprintf("slot sweep: %d small bundles, every length/count/offset field x %d hostile values and +-1, every truncation length: %d inputs to bundle.Read", len(asms), len(hostile), n))
+}
+
 // TestStatusSweep: validly signed exchanges with EVERY status code -1..1100 (and a few larger
 // ones), with no explicit freshness, with Expires, with max-age: Verify must return (never
 // panic), whatever it decides. The statuses are what an attacker-chosen but correctly signed
